@@ -222,7 +222,7 @@ class OpCase:
         return specs, ts, arrays, names
 
     def run(self, env):
-        with EpsZero(self.opdef.epsilon_zero() and self.prop in ("C01", "C02", "C14", "C05", "C06")):
+        with EpsZero(self.opdef.epsilon_zero() and not self.args.get("values") and self.prop in ("C01", "C02", "C14", "C05", "C06")):
             return getattr(self, "run_" + self.prop)(env)
 
     # ------------------------------------------------------------------ VJP (C01 / C02)
@@ -354,6 +354,18 @@ class OpCase:
             out.fact("n-outputs", len(refs) == len(outs), "%d outputs, reference has %d" % (len(outs), len(refs)))
             cexp = getattr(self.opdef, "compare_exp", False)
             for k, (oo, rr) in enumerate(zip(outs, refs)):
+                if self.args.get("values"):
+                    # concrete operand values (special points such as p = 0): the code computes in floating point, so the
+                    # comparison is to float32 accuracy, as claims over constants
+                    if np.shape(oo.data) != np.shape(rr):
+                        out.fact("out%d:shape" % k, False, "observed shape %s, expected %s" % (np.shape(oo.data), np.shape(rr)))
+                        continue
+                    got = [float(v) for v in np.asarray(oo.data, dtype=np.float64).reshape(-1)]
+                    want = [float(v) for v in np.asarray(rr, dtype=np.float64).reshape(-1)]
+                    for i_, (a_, b_) in enumerate(zip(got, want)):
+                        out.fact("out%d[%d] equals the reference value to float32 accuracy" % (k, i_),
+                                 a_ == a_ and abs(a_ - b_) <= 1e-5 * (1 + abs(b_)), "code %.9g, reference %.9g" % (a_, b_))
+                    continue
                 if cexp and np.shape(oo.data) == np.shape(rr):
                     # log-valued terms are compared after exponentiation (A = B <=> exp(cA) = exp(cB), c != 0;
                     # c undoes the 1/count of a mean so that every log atom has an integer coefficient)
